@@ -265,7 +265,7 @@ func c18Gen(r *RNG) c18Case {
 }
 
 func runC18(c *Ctx) {
-	c.Rep.Rule = "random multi-session histories (limits 1..5,1000; initial file missing/empty/terminated/unterminated/over-long/with blank lines); non-trivial = at least one non-empty submission and one previous/next step; distinct by JSON of the case; plus program runs (kind proc): sequences of 1..5 runs of the fzf binary on a pty over two history files, --history/--history-size/--no-history in both orders and forms, overridden, spread over options file / FZF_DEFAULT_OPTS / command line, query from --query, typed keys or POSTed actions, previous/next, endings accept (match / no match) print-query accept-or-print-query become abort-keys SIGTERM SIGINT, default limit 1000 on files of 997..1003 entries; non-trivial = at least one recorded non-empty submission"
+	c.Rep.Rule = "random multi-session histories (limits 1..5,1000; initial file missing/empty/terminated/unterminated/over-long/with blank lines); non-trivial = at least one non-empty submission and one previous/next step; distinct by JSON of the case; plus program runs (kind proc): sequences of 1..5 runs of the fzf binary on a pty over two history files, --history/--history-size/--no-history in both orders and forms, overridden, spread over options file / FZF_DEFAULT_OPTS / command line, query from --query, typed keys or POSTed actions, previous/next, attempts that end the run only if the list is not empty (become with an item placeholder, accept-non-empty; mostly on an empty list, repeated, the files read after every step while the session is open), endings accept (match / no match) print-query accept-or-print-query become abort-keys SIGTERM SIGINT, default limit 1000 on files of 997..1003 entries; non-trivial = at least one recorded non-empty submission"
 	dir := c.Work
 	if c.Replay != "" {
 		var cs c18Case
